@@ -626,8 +626,8 @@ pub fn run(args: &Args) -> i32 {
     }
     let accs = explore::par::run(&jobs, Acc::new, |_, job, acc| match job {
         Job::Explore(shape) => {
-            let caps = Caps { deadline: Some(deadline), max_executions: if thorough { 3_000_000 } else { 60_000 } };
-            let mut viol: Vec<(String, String, usize, Vec<u32>)> = Vec::new();
+            let caps = Caps { deadline: Some(deadline), max_executions: if thorough { 3_000_000 } else { 60_000 }, ..Caps::default() };
+            let mut viol = explore::report::ViolSet::new();
             let mut states: Vec<u64> = Vec::new();
             let mut outcomes: Vec<u64> = Vec::new();
             let mut nontrivial = 0u64;
@@ -645,7 +645,7 @@ pub fn run(args: &Args) -> i32 {
                         nontrivial += 1;
                     }
                     for (sig, msg) in judge(shape, &o) {
-                        viol.push((sig, msg, e.cost, e.choices.clone()));
+                        viol.add(sig, msg, (e.cost, e.choices.len()), &e.choices);
                     }
                 },
             );
@@ -661,9 +661,7 @@ pub fn run(args: &Args) -> i32 {
             for k in 0..nontrivial.min(1_000_000) {
                 acc.nontrivial.insert(h.finish().wrapping_add(k));
             }
-            for (sig, msg, cost, choices) in viol {
-                acc.violation(sig, msg, (cost, choices.len()), || shape_json(shape, &choices, seed));
-            }
+            viol.drain_into(acc, |choices| shape_json(shape, choices, seed));
         }
         Job::PerByteRead(shape) | Job::PerByteWrite(shape) => {
             let read = matches!(job, Job::PerByteRead(_));
